@@ -203,43 +203,60 @@ class Exact:
         return covered, must, may, (total if defined else None)
 
 
-def check_periods(ctx, entry, case, ex, hstart, outs, tag):
+def period_verdicts(ex, s, e, h, scale):
+    """the property for ONE period on the value `h` returned by the real code -> (list of (suffix, what, info), exact or None)"""
+    covered, must, may, total = ex.period(s, e)
+    kind = "rain" if ex.rain else "trapz"
+    out = []
+    if not covered:
+        if not isnan(h):
+            out.append(("missing_expected/past_last_stamp",
+                        "a period that extends past the last observation is returned non-missing "
+                        "(partial integral divided by the full period)", {"last_stamp": ex.secs[-1]}))
+    elif must:
+        if not isnan(h):
+            out.append(("missing_expected/invalid_overlap",
+                        "a period overlapped by an invalid interval (NaN / negative end value / gap > maxgapsec) "
+                        "is returned non-missing", {}))
+    elif not may:
+        if isnan(h):
+            out.append(("unexpected_missing",
+                        "a period covered by the data, all of whose touching intervals are valid, is missing", {}))
+    want = None
+    if not isnan(h) and covered and total is not None:
+        want = total if ex.rain else total / ex.P
+        tol = 1e-10 * (scale + abs(float(want)))
+        if not abs(Fraction(h) - want) <= tol:
+            out.append((f"value_not_period_average/{kind}",
+                        "a non-missing value differs from the exact period " +
+                        ("total of the prorated increments" if ex.rain else "average of the piecewise-linear interpolant"),
+                        {"exact": float(want)}))
+    return out, want
+
+
+def check_periods(ctx, entry, case, ex, hstart, outs, tag, shrinker=None):
     """the property, period by period, on values returned by the real code (`outs` = periods 0..len-1)"""
     P, rain = ex.P, ex.rain
     scale = max([abs(v) for v in ex.vals if not isnan(v)] + [1.0])
     kind = "rain" if rain else "trapz"
     run_sum, run_exact, run_len = 0.0, Fraction(0), 0
     nontrivial = False
+    shrunk = set()
     for i, h in enumerate(outs):
         s = hstart + i * P
         e = s + P
-        covered, must, may, total = ex.period(s, e)
-        info = {"period": i, "start": s, "end": e, "returned": None if isnan(h) else h}
-        if not covered:
-            if not isnan(h):
-                ctx.finding(f"{entry}/missing_expected/past_last_stamp",
-                            "a period that extends past the last observation is returned non-missing "
-                            "(partial integral divided by the full period)",
-                            {**case, **info, "last_stamp": ex.secs[-1]})
-        elif must:
-            if not isnan(h):
-                ctx.finding(f"{entry}/missing_expected/invalid_overlap",
-                            "a period overlapped by an invalid interval (NaN / negative end value / gap > maxgapsec) "
-                            "is returned non-missing", {**case, **info})
-        elif not may:
-            if isnan(h):
-                ctx.finding(f"{entry}/unexpected_missing",
-                            "a period covered by the data, all of whose touching intervals are valid, is missing",
-                            {**case, **info})
-        if not isnan(h) and covered and total is not None:
+        verdicts, want = period_verdicts(ex, s, e, h, scale)
+        for suffix, what, extra in verdicts:
+            info = {"period": i, "start": s, "end": e, "returned": None if isnan(h) else h, **extra}
+            rcase = {**case, **info}
+            if shrinker is not None and suffix not in shrunk:
+                shrunk.add(suffix)
+                small = shrinker(i, suffix)
+                if small is not None:
+                    rcase = small
+            ctx.finding(f"{entry}/{suffix}", what, rcase)
+        if want is not None:
             nontrivial = True
-            want = total if rain else total / P
-            tol = 1e-10 * (scale + abs(float(want)))
-            if not abs(Fraction(h) - want) <= tol:
-                ctx.finding(f"{entry}/value_not_period_average/{kind}",
-                            "a non-missing value differs from the exact period " +
-                            ("total of the prorated increments" if rain else "average of the piecewise-linear interpolant"),
-                            {**case, **info, "exact": float(want)})
             run_sum += h
             run_exact += want
             run_len += 1
@@ -388,7 +405,28 @@ def body(ctx):
                 if SENT in outs:
                     ctx.finding("kernel/period_not_written", "a period below nvalh-1 was not written", dict(case))
                 ex = Exact(secs, vals, P, rain, maxgap)
-                nontrivial = check_periods(ctx, "kernel", case, ex, hstart, outs, tag)
+
+                def shrinker(i, suffix):
+                    """the observations around period i only, origin = start of the period, one period"""
+                    s0 = hstart + i * P
+                    j0 = max(bisect.bisect_right(secs, s0) - 2, 0)
+                    j1 = min(bisect.bisect_left(secs, s0 + P) + 1, len(secs) - 1)
+                    sub, subv = secs[j0:j1 + 1], vals[j0:j1 + 1]
+                    if len(sub) < 2 or sub[0] > s0 or len(sub) >= len(secs) and i == 0:
+                        return None
+                    ierr2, hv2 = call_kernel(P, rain, maxgap, s0, 2, sub, subv)
+                    if ierr2 != 0:
+                        return None
+                    h2 = float(hv2[0])
+                    v2, _ = period_verdicts(Exact(sub, subv, P, rain, maxgap), s0, s0 + P, h2, scale)
+                    for suf2, _, extra in v2:
+                        if suf2 == suffix:
+                            return {"kind": "kernel", "secs": sub, "vals": enc_vals(subv), "P": P, "rain": rain,
+                                    "maxgap": maxgap, "hstart": s0, "nvalh": 2, "period": 0, "start": s0,
+                                    "end": s0 + P, "returned": None if isnan(h2) else h2, **extra,
+                                    "shrunk_from": {"n": len(secs), "period": i, "gen": case.get("gen")}}
+                    return None
+                nontrivial = check_periods(ctx, "kernel", case, ex, hstart, outs, tag, shrinker)
                 stats["periods_checked"] += len(outs)
                 stats["periods_nonmissing"] += sum(1 for x in outs if not isnan(x))
         reqs.append(f"kernel {P} {rain} {maxgap} {C.f2h(EPS)} {hstart} {nvalh} {C.ilist(secs)} {C.flist(vals)}")
@@ -399,7 +437,7 @@ def body(ctx):
             pend.append(("kernelq", impl, case, scale))
             stats["rat_cases"] += 1
         ctx.count(("k", P, rain, maxgap, hstart, nvalh, tuple(secs), tuple(case["vals"])), nontrivial,
-                  f"kernel/{tag}/P={P}/rain={rain}" + ("" if ierr == 0 else "/err"),
+                  f"kernel/{tag.split('/')[0]}/P={P}/rain={rain}" + ("" if ierr == 0 else "/" + impl.replace(" ", "=")),
                   sample={"entry": "c_var2h", "P": P, "rainfall": rain, "maxgapsec": maxgap, "hstartsec": hstart,
                           "nvalh": nvalh, "varsec": secs[:8], "varvalues": case["vals"][:8],
                           "returned": (impl if isinstance(impl, str) else enc_vals(impl[:6]))} if len(secs) <= 8 else None)
@@ -491,12 +529,16 @@ def body(ctx):
                      and res[2] == ref[2]))
                 if not same and wellformed:
                     u0, z0 = variants[0]
-                    what = []
-                    if unit != u0:
-                        what.append(f"unit={unit}")
-                    if tz != z0:
-                        what.append("tz")
-                    ctx.finding("var2h/depends_on_index/" + "+".join(what),
+                    what = f"unit={unit}" if unit != u0 else "tz"
+                    if unit != u0 and tz != z0:
+                        # which of the two is responsible: same unit, reference zone
+                        res2, _ = call_wrapper(secs, vals, P, rain, maxgap, unit, z0)
+                        same2 = (res2[0] == ref[0]) and (
+                            res2[1] == ref[1] if res2[0] == "err" else
+                            (len(res2[1]) == len(ref[1]) and all(C.f2h(a) == C.f2h(b) for a, b in zip(res2[1], ref[1]))
+                             and res2[2] == ref[2]))
+                        what = "tz" if same2 else f"unit={unit}"
+                    ctx.finding("var2h/depends_on_index/" + what,
                                 f"dutils.var2h returns a different result for the same wall-clock stamps stored as "
                                 f"datetime64[{unit}] tz={tz} than as datetime64[{u0}] tz={z0}",
                                 {**vcase, "ref_unit": u0, "ref_tz": z0,
